@@ -459,6 +459,10 @@ def truth_check(f, classify, required, max_atoms=14):
     groups = {}
     for k in keys:
         if " is " in k:
+            # two-variant enums have one canonical atom (Some / Err / Break ...): they never exclude the variants of the payload's
+            # own enum, whose term renders the same once the downcast is stripped
+            if k.rsplit(" is ", 1)[1] in ("Some", "None", "Ok", "Err", "Continue", "Break", "True", "False"):
+                continue
             groups.setdefault(k.rsplit(" is ", 1)[0], []).append(k)
         elif " == " in k:
             groups.setdefault(k.rsplit(" == ", 1)[0], []).append(k)
